@@ -43,17 +43,13 @@ package context
 
 //@ # ---- query planning (C13): the query interval is a whole multiple of the storage interval it reads from, and
 //@ # the query time range is aligned to that storage interval ---------------------------------------------------
-//@ func github.com/lindb/lindb/pkg/option.DatabaseOption.FindMatchSmallestInterval
-//@   assume
-//@   modifies nothing
-//@   ensures int64(result) >= 1000 && int64(result) <= 1000000000000
-//@ end
 //@ func calcTimeRangeAndInterval
 //@   prop C13
 //@   arith math
-//@   requires statement != nil && cfg.Option != nil && len(cfg.Option.Intervals) > 0 && int64(cfg.Option.Intervals[0].Interval) >= 1000 && int64(cfg.Option.Intervals[0].Interval) <= 1000000000000
+//@   requires statement != nil && cfg.Option != nil && len(cfg.Option.Intervals) > 0 && forall(k, 0, len(cfg.Option.Intervals), int64(cfg.Option.Intervals[k].Interval) >= 1000 && int64(cfg.Option.Intervals[k].Interval) <= 1000000000000)
 //@   requires int64(statement.Interval) <= 1000000000000 && statement.TimeRange.Start >= 0 && statement.TimeRange.Start <= statement.TimeRange.End && statement.TimeRange.End <= 4102444800000
 //@   modifies statement.TimeRange.Start, statement.TimeRange.End, statement.Interval, statement.StorageInterval, statement.IntervalRatio
 //@   ensures[query_interval_is_a_whole_multiple_of_the_storage_interval] statement.IntervalRatio >= 1 && int64(statement.Interval) == int64(statement.StorageInterval) * int64(statement.IntervalRatio) && int64(statement.StorageInterval) >= 1000
+//@   ensures[the_planner_reads_from_an_interval_the_database_stores] exists(k, 0, len(cfg.Option.Intervals), cfg.Option.Intervals[k].Interval == statement.StorageInterval)
 //@   ensures[query_range_is_aligned_to_the_storage_interval] statement.TimeRange.Start % int64(statement.StorageInterval) == 0 && statement.TimeRange.End % int64(statement.StorageInterval) == 0 && statement.TimeRange.Start <= old(statement.TimeRange.Start) && statement.TimeRange.End <= old(statement.TimeRange.End) && old(statement.TimeRange.Start) < statement.TimeRange.Start + int64(statement.StorageInterval) && old(statement.TimeRange.End) < statement.TimeRange.End + int64(statement.StorageInterval)
 //@ end
